@@ -12,6 +12,7 @@ import (
 	"sort"
 	"strings"
 	"sync"
+	"sync/atomic"
 
 	"deps.dev/util/resolve"
 	"deps.dev/util/resolve/dep"
@@ -200,10 +201,22 @@ type world struct {
 type switchClient struct{ resolve.Client }
 
 func newWorld(u *uni.Universe) *world {
+	// The other systems' matchers read the same requirement texts first
+	// (see uni.ForeignWarmup): nothing the PyPI resolver does may depend on it.
+	uni.ForeignWarmup(u)
 	w := &world{lc: u.Client(nil), sw: &switchClient{}}
 	w.res = pypi.NewResolver(w.sw)
+	// Every third resolver starts with its bounded caches filled beyond their
+	// capacity (see uni.SaturatePyPI), so that this universe's markers and
+	// constraints are inserted through the eviction path.
+	if worlds.Add(1)%3 == 0 {
+		uni.SaturatePyPI(w.res, func(c resolve.Client) { w.sw.Client = c })
+		saturated.Add(1)
+	}
 	return w
 }
+
+var worlds, saturated atomic.Int64
 
 func run(c Case, w *world) (res resolved) {
 	defer func() {
@@ -1187,6 +1200,7 @@ func Run(r *ev.Run, replay string) {
 		}(sh)
 	}
 	wg.Wait()
+	r.Count("resolvers_started_cache_saturated", saturated.Load())
 
 	total := r.Counter("generated:resolutions")
 	free := r.Counter("generated:error_free")
